@@ -28,6 +28,7 @@ var c10Plan = []planEntry{
 	{spaces.XEol, 5, 6},
 	{spaces.XNul, 5, 6},
 	{spaces.XPhrase, 4, 5},
+	{spaces.XRefTail, 4, 5},
 	{spaces.XInfo, 4, 5},
 	{spaces.XRefHead, 5, 6},
 }
